@@ -94,6 +94,37 @@ def r15_6(ctx, run, rule='R15.6'):
         run.proved(rule, fn, 'variants', f'is_predicate accepts {sorted(set(narrowed))}, which covers every variant the evaluator handles ({sorted(handled)})', loc)
 
 
+def mode_read(ctx, run, rule='R15.1'):
+    """The selection mode is consulted only by Selector::select: the position computation is shared by all modes."""
+    f = ctx.facts
+    # the mode is consulted only by select
+    readers = []
+    for p, b in f.bodies.items():
+        if b.kind == 'Promoted' or not p.startswith('jsonpath::selector::'):
+            continue
+        hit = False
+        for bl in b.blocks:
+            for s in bl['stmts']:
+                if s['k'] == 'assign':
+                    for pl in places_of(s):
+                        if any(e['k'] == 'field' and e.get('name') == 'mode' for e in pl.get('proj', [])):
+                            hit = True
+            t = bl['term']
+            for pl in places_of_term(t):
+                if any(e['k'] == 'field' and e.get('name') == 'mode' for e in pl.get('proj', [])):
+                    hit = True
+        if hit:
+            readers.append(p)
+    extra = [r for r in readers if not r.endswith('::select') and not r.endswith('::new')]
+    if extra:
+        for r in extra:
+            b = f.bodies[r]
+            run.violation(rule, r, 'mode-read', 'the selection mode is consulted outside Selector::select: the position computation shared by all modes, by exists and by '
+                          'predicate_match now depends on the mode, so the modes no longer describe the same item list', f'{b.file}:{b.line}')
+    else:
+        run.proved(rule, SEL + 'select', 'mode-read', f'the mode field is read only in select ({len(readers)} reader(s))')
+
+
 def check(ctx, run):
     f = ctx.facts
     run.rules_run = ['R15.1', 'R15.2', 'R15.3', 'R15.4', 'R15.5', 'R15.6']
@@ -124,32 +155,7 @@ def check(ctx, run):
             run.undecided('R15.1', SEL + m, 'positions', 'no call of find_positions was found in this method or its private helpers: where its positions come from is not decided', f'{b.file}:{b.line}')
         else:
             (run.proved if ok else run.violation)('R15.1', SEL + m, 'positions', 'positions come from one call of find_positions(root, None, paths)' if ok else f'{len(fp)} calls of find_positions', f'{b.file}:{b.line}')
-    # the mode is consulted only by select
-    readers = []
-    for p, b in f.bodies.items():
-        if b.kind == 'Promoted' or not p.startswith('jsonpath::selector::'):
-            continue
-        hit = False
-        for bl in b.blocks:
-            for s in bl['stmts']:
-                if s['k'] == 'assign':
-                    for pl in places_of(s):
-                        if any(e['k'] == 'field' and e.get('name') == 'mode' for e in pl.get('proj', [])):
-                            hit = True
-            t = bl['term']
-            for pl in places_of_term(t):
-                if any(e['k'] == 'field' and e.get('name') == 'mode' for e in pl.get('proj', [])):
-                    hit = True
-        if hit:
-            readers.append(p)
-    extra = [r for r in readers if not r.endswith('::select') and not r.endswith('::new')]
-    if extra:
-        for r in extra:
-            b = f.bodies[r]
-            run.violation('R15.1', r, 'mode-read', 'the selection mode is consulted outside Selector::select: the position computation shared by all modes, by exists and by '
-                          'predicate_match now depends on the mode, so the modes no longer describe the same item list', f'{b.file}:{b.line}')
-    else:
-        run.proved('R15.1', SEL + 'select', 'mode-read', f'the mode field is read only in select ({len(readers)} reader(s))')
+    mode_read(ctx, run, 'R15.1')
     run.floor('R15.1', 'path entry points', n, 5)
     # ---- R15.2 mode table
     b = f.bodies.get(SEL + 'select')
